@@ -36,6 +36,9 @@ import (
 	"time"
 
 	"github.com/DrmagicE/gmqtt"
+	"github.com/DrmagicE/gmqtt/config"
+	"github.com/DrmagicE/gmqtt/persistence"
+	"github.com/DrmagicE/gmqtt/persistence/queue"
 	"github.com/DrmagicE/gmqtt/server"
 
 	"verifharness/inproc"
@@ -77,6 +80,9 @@ type StormSpec struct {
 	// Fresh: per cent of the connections that use a client id never seen before (first touch of the per-client
 	// statistics, session creation) and subscribe with wildcards; 0 = the few colliding ids only
 	Fresh int `json:"fresh"`
+	// Wills: per cent of the connections that are MQTT 5 with a Will Delay Interval of 1..2 s and a session that outlives it;
+	// such clients are killed rather than disconnected most of the time (will timers pending, cancelled by quick returns)
+	Wills int `json:"wills"`
 }
 
 type Scenario struct {
@@ -1100,6 +1106,7 @@ func (s *stormClient) run(stopping *int32, wg *sync.WaitGroup) {
 	var cid string
 	var ver byte
 	var pid uint16
+	willy := false
 	nfresh := 0
 	closeConn := func() {
 		if c != nil {
@@ -1180,8 +1187,18 @@ func (s *stormClient) run(stopping *int32, wg *sync.WaitGroup) {
 			}
 			c = mw.NewClient(conn, ver)
 			spec := ConnSpec{Ver: ver, CID: cid, Clean: s.rng.Intn(2) == 0}
+			willy = s.rng.Intn(100) < s.sc.Storm.Wills
+			if willy {
+				ver = mw.V5
+				c = mw.NewClient(conn, ver)
+				spec = ConnSpec{Ver: ver, CID: cid, Clean: false, Expiry: 30, WillDelay: uint32(1 + s.rng.Intn(2))}
+			}
 			if ver == mw.V5 && s.rng.Intn(2) == 0 {
 				spec.Expiry = 30
+				if s.rng.Intn(2) == 0 {
+					// a delayed will: killed connections leave a will timer behind, a quick return with the same id cancels it
+					spec.WillDelay = uint32(1 + s.rng.Intn(2))
+				}
 			}
 			stat("connects", 1)
 			if !request(connectPacket(spec), mw.CONNACK, "CONNACK") {
@@ -1193,7 +1210,14 @@ func (s *stormClient) run(stopping *int32, wg *sync.WaitGroup) {
 		if pid == 0 {
 			pid = 1
 		}
-		switch r := s.rng.Intn(20); {
+		r := s.rng.Intn(20)
+		if willy && r < 14 {
+			r = 18 + r%2 // mostly killed at once: the will timer starts, the next connection with this id cancels it
+			if r == 18 {
+				r = 19
+			}
+		}
+		switch {
 		case r < 4:
 			request(mw.Subscribe(pid, mw.SubTopic{Filter: topics[s.rng.Intn(3)], QoS: byte(s.rng.Intn(3))}), mw.SUBACK, "SUBACK")
 		case r < 8:
@@ -1551,6 +1575,10 @@ func runPairs(sc *Scenario) {
 // Afterwards every request must be answered within the request watchdog: CONNACK / the statistics call, SUBACK, PUBACK,
 // a PINGRESP on every connection, and Stop must return.
 func runLockOrder(sc *Scenario) {
+	if sc.Conns[0].CID == "pollinfl" {
+		runLockOrderPoll(sc)
+		return
+	}
 	reqTO := time.Duration(sc.RequestMs) * time.Millisecond
 	parked := make(chan struct{})
 	release := make(chan struct{})
@@ -1687,6 +1715,187 @@ func runLockOrder(sc *Scenario) {
 		div("stop-timeout:"+causes(gs), fmt.Sprintf("lockorder: Stop did not return within %d ms: %v", sc.StopMs, bn.stopErr), nil)
 	}
 	for _, c := range []*mw.Client{s1, s2, w, pb} {
+		c.Close()
+	}
+	setStat("stop_ms", bn.stopDur.Milliseconds())
+}
+
+// ---------------------------------------------------------------- gated persistence (lock order: limiter vs queue)
+
+// "memgated" = the memory persistence whose session queues park in ReadInflight (before the real call, i.e. before the
+// queue's mutex is taken) while the harness holds the gate: a scheduler gate at the persistence boundary.
+type gatedPersistence struct {
+	server.Persistence
+}
+
+type gatedQueue struct {
+	queue.Store
+	cid string
+}
+
+var (
+	gateMu      sync.Mutex
+	gateArmed   string        // client id whose next ReadInflight parks
+	gateParked  chan struct{} // closed when it has parked
+	gateRelease chan struct{}
+)
+
+func (g *gatedPersistence) NewQueueStore(cfg config.Config, n queue.Notifier, clientID string) (queue.Store, error) {
+	inner, err := g.Persistence.NewQueueStore(cfg, n, clientID)
+	if err != nil {
+		return nil, err
+	}
+	return &gatedQueue{Store: inner, cid: clientID}, nil
+}
+
+func (q *gatedQueue) ReadInflight(max uint) ([]*queue.Elem, error) {
+	gateMu.Lock()
+	hit := gateArmed != "" && gateArmed == q.cid
+	var parked, release chan struct{}
+	if hit {
+		gateArmed = ""
+		parked, release = gateParked, gateRelease
+	}
+	gateMu.Unlock()
+	if hit {
+		close(parked)
+		<-release
+	}
+	return q.Store.ReadInflight(max)
+}
+
+func init() {
+	server.RegisterPersistenceFactory("memgated", func(c config.Config) (server.Persistence, error) {
+		inner, err := persistence.NewMemory(c)
+		if err != nil {
+			return nil, err
+		}
+		return &gatedPersistence{Persistence: inner}, nil
+	})
+}
+
+// runLockOrderPoll forces the interleaving limiter <-> queue of LockOrder.tla (third party pollinfl):
+//
+//	a persistent session with a FULL queue whose oldest entry is an in-flight message past inflight_expiry;
+//	the client returns: pollInflights parks at the persistence boundary (in ReadInflight, before the queue's mutex);
+//	a publication for the session: queue.Add (queue mutex held) drops the expired in-flight entry and releases its
+//	packet id (limiter lock);  the parked poll goroutine is released.
+//
+// Afterwards every request must be answered: PUBACK for the publication, CONNACK for a new client, PINGRESP, Stop.
+func runLockOrderPoll(sc *Scenario) {
+	reqTO := time.Duration(sc.RequestMs) * time.Millisecond
+	rec := inproc.NewRecorder()
+	p := &plug{}
+	cfg := inproc.DefaultConfig()
+	cfg.MQTT.DeliveryMode = "overlap"
+	cfg.MQTT.MaxQueuedMsg = 3
+	cfg.MQTT.InflightExpiry = time.Second
+	cfg.Persistence.Type = "memgated"
+	b, err := inproc.Start(inproc.Options{Cfg: cfg, Server: []server.Options{server.WithPlugin(p)}, Rec: rec})
+	if err != nil {
+		fatal("broker start: " + err.Error())
+	}
+	bn := &bench{b: b, p: p, rec: rec}
+	open := func(id string, clean bool, expiry uint32, to time.Duration) (*mw.Client, error) {
+		var lastErr error
+		for i := 0; i < 50; i++ {
+			conn, err := net.DialTimeout("tcp", b.Addr, time.Second)
+			if err != nil {
+				lastErr = err
+				time.Sleep(10 * time.Millisecond)
+				continue
+			}
+			c := mw.NewClient(conn, mw.V5)
+			c.Send(connectPacket(ConnSpec{Ver: mw.V5, CID: id, Clean: clean, Expiry: expiry}))
+			if _, _, err := c.RecvType(mw.CONNACK, to); err != nil {
+				c.Close()
+				return nil, err
+			}
+			return c, nil
+		}
+		return nil, lastErr
+	}
+	must := func(c *mw.Client, err error) *mw.Client {
+		if err != nil {
+			fatal("lockorder/pollinfl: setup: " + err.Error())
+		}
+		return c
+	}
+	s1 := must(open("lo-s", false, 60, reqTO))
+	pb := must(open("lo-p", true, 0, reqTO))
+	s1.Send(mw.Subscribe(1, mw.SubTopic{Filter: "lo/t", QoS: 1}))
+	if _, _, err := s1.RecvType(mw.SUBACK, reqTO); err != nil {
+		fatal("lockorder/pollinfl: setup subscription: " + err.Error())
+	}
+	publish := func(pid uint16, wait bool) bool {
+		pb.Send(mw.Publish("lo/t", 1, false, pid, []byte(fmt.Sprintf("m%d", pid))))
+		if !wait {
+			return true
+		}
+		_, _, err := pb.RecvType(mw.PUBACK, reqTO)
+		return err == nil
+	}
+	if !publish(1, true) {
+		fatal("lockorder/pollinfl: setup publication not acknowledged")
+	}
+	if _, _, err := s1.RecvType(mw.PUBLISH, reqTO); err != nil { // in flight, never acknowledged
+		fatal("lockorder/pollinfl: the subscriber did not get the first message: " + err.Error())
+	}
+	time.Sleep(1300 * time.Millisecond) // past inflight_expiry
+	s1.Close()
+	time.Sleep(100 * time.Millisecond)
+	if !publish(2, true) || !publish(3, true) { // the queue is full now: [m1 in flight and expired, m2, m3]
+		fatal("lockorder/pollinfl: setup publications not acknowledged")
+	}
+	report := func(what string) {
+		gs, raw := gmqttGoroutines()
+		res.Goroutines = raw
+		div("unanswered:lock-cycle:pollinfl", fmt.Sprintf("lockorder (pollinfl): %s within %d ms after the parked poll goroutine was released; goroutines of the broker waiting for a mutex: %s",
+			what, sc.RequestMs, lockWaiters(gs)), gs)
+	}
+	gateMu.Lock()
+	gateArmed, gateParked, gateRelease = "lo-s", make(chan struct{}), make(chan struct{})
+	parked, release := gateParked, gateRelease
+	gateMu.Unlock()
+	s2 := must(open("lo-s", false, 60, reqTO)) // resumes: pollMessageHandler -> pollInflights -> ReadInflight parks
+	select {
+	case <-parked:
+	case <-time.After(reqTO):
+		fatal("lockorder/pollinfl: the resumed session never read its in-flight messages")
+	}
+	publish(4, false) // queue.Add under the queue mutex: full -> drops the expired in-flight m1 -> pl.release
+	time.Sleep(200 * time.Millisecond)
+	close(release)
+	stuck := false
+	if _, _, err := pb.RecvType(mw.PUBACK, reqTO); err != nil {
+		report("no PUBACK for a publication to the resumed session")
+		stuck = true
+	}
+	if !stuck {
+		if c, err := open("lo-new", true, 0, reqTO); err != nil {
+			report("no CONNACK for a new client")
+			stuck = true
+		} else {
+			c.Close()
+		}
+	}
+	if !stuck {
+		s2.Send(mw.Pingreq())
+		if _, _, err := s2.RecvType(mw.PINGRESP, reqTO); err != nil {
+			report("no PINGRESP on the resumed connection")
+			stuck = true
+		}
+	}
+	stat("requests", 3)
+	if !stuck {
+		stat("answered", 3)
+	}
+	if !bn.stopWatched(time.Duration(sc.StopMs) * time.Millisecond) {
+		gs, _ := gmqttGoroutines()
+		div("stop-hangs:lock-cycle", fmt.Sprintf("lockorder (pollinfl): Stop neither returned nor gave up at its deadline (%d ms + 2 s); waiting for a mutex: %s", sc.StopMs, lockWaiters(gs)), nil)
+		return
+	}
+	for _, c := range []*mw.Client{s2, pb} {
 		c.Close()
 	}
 	setStat("stop_ms", bn.stopDur.Milliseconds())
